@@ -185,3 +185,54 @@ theorem serve_survives (cfg : Cfg) (cs : List (Nat × Nat × Nat)) :
     · exact ⟨(ih _).1, by simp [(ih _).2]⟩
     · exact ⟨(ih _).1, by simp [(ih _).2]⟩
 end Limiter
+
+namespace Limiter
+/-! ### several hosts on one port: each host's requests are judged by that host's limiter -/
+
+theorem serveRequests_disabled (cfg : Cfg) (hd : disabled cfg = true) (a t : Nat) :
+    ∀ (n : Nat) (st : St), serveRequests cfg st a t n = (st, List.replicate n .ok) := by
+  intro n
+  induction n with
+  | zero => intro st; rfl
+  | succ n ih =>
+    intro st
+    have hr : register cfg st a t = (st, .passed) := by simp [register, hd]
+    simp only [serveRequests, hr, ih st, List.replicate_succ]
+
+/-- the listener survives with several hosts too, and every connection gets an outcome -/
+theorem serveHosts_survives (cfgs : List Cfg) (cs : List (Nat × Nat × Nat × Nat)) :
+    ∀ sts, (serveHosts cfgs sts cs).2 = true ∧ (serveHosts cfgs sts cs).1.length = cs.length := by
+  induction cs with
+  | nil => intro sts; exact ⟨rfl, rfl⟩
+  | cons c cs ih =>
+    intro sts; obtain ⟨a, t, h, n⟩ := c
+    simp only [serveHosts]
+    split
+    · exact ⟨(ih _).1, by simp [(ih _).2]⟩
+    · exact ⟨(ih _).1, by simp [(ih _).2]⟩
+
+/-- **a host whose limiter is disabled never limits its requests**, whatever the limiters of the other hosts on the
+port are set to and whatever they have counted: a connection that was accepted and names that host gets every request
+answered. (The accept itself is judged by the first host's limiter — the pre-host limiter.) -/
+theorem disabled_host_never_limits (cfgs : List Cfg) (sts : List St) (a t h n : Nat) (cs : List (Nat × Nat × Nat × Nat))
+    (hd : disabled (getCfg cfgs h) = true)
+    (hacc : (register (getCfg cfgs 0) (getSt sts 0) a t).2 ≠ .drop) :
+    (serveHosts cfgs sts ((a, t, h, n) :: cs)).1.head? = some (List.replicate n .ok) := by
+  simp only [serveHosts]
+  rw [if_neg hacc]
+  simp only [serveRequests_disabled _ hd, List.head?_cons]
+
+/-- **requests to a host are judged by that host's limiter alone**: the outcomes of an accepted connection are those of
+`serveRequests` with the host's own configuration and counters — no other host's configuration appears. -/
+theorem host_limiter_decides (cfgs : List Cfg) (sts : List St) (a t h n : Nat) (cs : List (Nat × Nat × Nat × Nat))
+    (hacc : (register (getCfg cfgs 0) (getSt sts 0) a t).2 ≠ .drop) :
+    (serveHosts cfgs sts ((a, t, h, n) :: cs)).1.head? =
+      some (serveRequests (getCfg cfgs h) (getSt (sts.set 0 (register (getCfg cfgs 0) (getSt sts 0) a t).1) h) a t n).2 := by
+  simp only [serveHosts]
+  rw [if_neg hacc]
+  simp only [List.head?_cons]
+
+/-! tests: host 0 limits at 1, host 1 is disabled; host 1's requests are never limited, host 0's are -/
+example : (serveHosts [⟨1, 1, 1000⟩, ⟨0, Rust.USIZE_MAX, 0⟩] [{}, {}] [(7, 0, 1, 3), (8, 0, 0, 3)]).1 =
+    [[.ok, .ok, .ok], [.tooMany, .tooMany, .closed]] := by decide +kernel
+end Limiter
